@@ -7,6 +7,7 @@ from optree import accessor as acc_mod
 
 from mc import e1, gen
 from mc import universe as un
+from mc.e1 import outcome_of
 
 PROP = 'C04'
 
@@ -179,7 +180,63 @@ def check(ctx, tree, leaves0, dsl, cfg):  # noqa: C901, PLR0912
             ctx.violation('accessor-eq-hash', keyf('accessor-eq-hash'), case, f'{a!r} vs {b!r}')
 
 
+def same_name_histories(ctx):
+    """Entries must describe the class OBJECT they belong to, not its name: different node classes that share
+    module + qualname (a factory calling namedtuple('Record', fields) with varying fields, two dataclasses or
+    custom classes of one name) observed one after the other, in every order."""
+    import itertools  # noqa: PLC0415
+    from collections import namedtuple  # noqa: PLC0415
+
+    from mc.universe import Leaf  # noqa: PLC0415
+
+    field_sets = (('x', 'y'), ('y', 'x', 'z'), ('z',), ('a', 'x'))
+    for order in itertools.permutations(range(len(field_sets)), 3):
+        classes = [namedtuple('Record', field_sets[i]) for i in order]  # noqa: PYI024
+        for rnd, cls in enumerate([*classes, classes[0]]):
+            ctx.count()
+            ctx.cls(('same-name', order, rnd))
+            leaves = [Leaf(i) for i in range(len(cls._fields))]
+            tree = [cls(*leaves), {'k': cls(*reversed(leaves))}]
+            accs, lvs, spec = optree.tree_flatten_with_accessor(tree)
+            case = {'same_name_history': [list(field_sets[i]) for i in order], 'round': rnd}
+            for a, leaf in zip(accs, lvs):
+                e = a[-1]
+                want = cls._fields[e.entry]
+                got = outcome_of(lambda e=e, a=a, leaf=leaf: (e.field, tuple(e.fields), a(tree) is leaf, want in repr(e)))
+                r = outcome_of(lambda a=a: eval(a.codify('t'), {'t': tree}))  # noqa: S307
+                if got != ('ok', (want, cls._fields, True, True)) or r[0] != 'ok' or r[1] is not leaf:
+                    ctx.violation('same-name-class', f'{PROP}:entry-describes-class-by-name', case,
+                                  f'class Record{cls._fields}, entry index {e.entry}: (field, fields, reaches leaf, repr) = '
+                                  f'{got!r}; eval(codify) -> {r!r}; expected field {want!r}')
+            ctx.outcome('same-name-history')
+    # dataclasses of one name in two namespaces
+    for rnd in range(3):
+        ctx.count()
+        made = []
+        try:
+            for fields in (('p', 'q'), ('q', 'r', 'p')):
+                cls = optree.dataclasses.make_dataclass('Rec', list(fields), namespace=f'ns4-{len(made)}')
+                made.append(cls)
+                vals = [Leaf(i) for i in range(len(fields))]
+                obj = cls(*vals)
+                accs, lvs, _ = optree.tree_flatten_with_accessor([obj], namespace=f'ns4-{len(made) - 1}')
+                for a, leaf, name in zip(accs, lvs, fields):
+                    code = a.codify('t')
+                    r = outcome_of(lambda code=code, obj=obj: eval(code, {'t': [obj]}))  # noqa: S307
+                    if a[-1].name != name or a([obj]) is not leaf or r != ('ok', leaf):
+                        ctx.violation('same-name-dataclass', f'{PROP}:entry-describes-class-by-name',
+                                      {'same_name_dataclass': list(fields)}, f'{a!r} {code} -> {r!r}')
+        finally:
+            for i, cls in enumerate(made):
+                try:
+                    optree.unregister_pytree_node(cls, namespace=f'ns4-{i}')
+                except Exception:  # noqa: BLE001
+                    pass
+
+
 def run_shard(ctx):
+    if ctx.shard == 0:
+        same_name_histories(ctx)
     e1.drive(ctx, ctx.tier, lambda tree, leaves, dsl, cfg: check(ctx, tree, leaves, dsl, cfg),
              profile='small' if ctx.tier == 'quick' else 'full')
 
